@@ -164,6 +164,12 @@ class Interp:
         self.last_fired = 0
         self.control_fired = 0
         self.unknown_lines = set()
+        for c in comps:
+            for node in walk(c):
+                if node[0] == "f" and node[1] == "counter":
+                    nm = self._name(node[2], None)
+                    if nm:
+                        self.vars[nm] = 0
 
     # ---------- run machine
     def run(self, rows, offered_set, scan_last, headers=None):
@@ -214,7 +220,7 @@ class Interp:
         self._mc_at_start = self.match_count
         self.skip = False
         self.votes = [None] * len(self.comps)
-        self.evaluating = set()
+        self.in_progress = set()
         failed = not self.AND
         tr = {"i": self.i}
         for k, c in enumerate(self.comps):
@@ -252,6 +258,7 @@ class Interp:
         if self.votes[k] is not None:
             return self.votes[k]
         self.cur_comp = k
+        self.in_progress.add(k)
         try:
             v = self.match(self.comps[k])
             if v is None:
@@ -262,6 +269,7 @@ class Interp:
         except Unspecified:
             self.unknown_lines.add(self.i)
             v = False
+        self.in_progress.discard(k)
         self.votes[k] = bool(v)
         return self.votes[k]
 
@@ -270,6 +278,7 @@ class Interp:
         self.frozen = True
         self._mc_at_start = self.match_count
         self.votes = [None] * len(self.comps)
+        self.in_progress = set()
         self.is_scan_last = False
         self.blank_end = True
         for c in self.comps:
@@ -287,8 +296,8 @@ class Interp:
     # ---------- other-components-match (onmatch look-ahead): all OTHER components vote True
     def rest_matches(self, k):
         for j in range(len(self.comps)):
-            if j == k:
-                continue
+            if j == k or j in self.in_progress:
+                continue  # a component in the middle of its own evaluation counts as agreeing
             if self.votes[j] is None:
                 save = self.cur_comp
                 v = self._vote_component(j)
@@ -353,7 +362,12 @@ class Interp:
         if k == "t":
             raise Unmodelled("bare term as a component")
         if k == "==":
-            return self.equal(self.value(n[1]), self.value(n[2]))
+            a, b = self.value(n[1]), self.value(n[2])
+            if is_none(a) or is_none(b):
+                raise Unspecified("'==' against an absent or empty value (docs are silent; use empty()/exists())")
+            if isinstance(a, float) and math.isnan(a) or isinstance(b, float) and math.isnan(b):
+                raise Unspecified("'==' against nan")
+            return self.equal(a, b)
         if k == "=":
             return self.assign(n)
         if k == "->":
@@ -381,10 +395,15 @@ class Interp:
         if not self.AND and q:
             raise Unmodelled("qualified assignment under OR")
         rest = True
+        if rhs[0] == "f" and rhs[1] == "count" and not rhs[3] and "onmatch" not in q:
+            # docs/functions/count.md: "count() without a contained value only ever increments when the row matches.
+            # In that case, onmatch would add nothing."
+            quals = list(quals) + ["onmatch"]
+            q = set(quals)
         if "onmatch" in q:
             rest = self.rest_matches(self.cur_comp)
-        vote, new = refassign.step(quals, cur, y, rest, neutral=self.neutral())
-        if new != cur or (new is not None and type(new) is not type(cur)):
+        vote, new, wrote = refassign.step3(quals, cur, y, rest, neutral=self.neutral())
+        if wrote:
             self.set_var(name, key, new)
         if not self.AND:
             # "A typical assignment doesn't contribute to the match decision for a row": under OR that is False
@@ -507,7 +526,10 @@ class Interp:
             if key in self.once_done:
                 return self.neutral()
             self.once_done.add(key)
-        self.prints.append(self.value(a[0]))
+        txt = self.value(a[0])
+        if getattr(self, "print_hook", False):
+            txt = txt.replace("$.csvpath.count_scans", str(self.scan_count)).replace("$.csvpath.line_number", str(self.i))
+        self.prints.append(txt)
         return self.neutral()
 
     # control
@@ -551,8 +573,10 @@ class Interp:
     # comparison: docs/functions/above.md "they implement the > and < operators"; "Comparison ... is attempted in this order: Number,
     # Date, String"; "A number compared with a stringified number is ... no different than a number and a number"; None/nan -> False
     def _cmp(self, a, b):
-        if a is None or b is None or is_none(a) or is_none(b):
+        if a is None or b is None:
             return None
+        if is_none(a) or is_none(b):
+            raise Unspecified("ordering against an empty cell (the docs speak of None and nan only)")
         if isinstance(a, float) and math.isnan(a) or isinstance(b, float) and math.isnan(b):
             return None
         if is_numlike(a) and is_numlike(b):
@@ -693,7 +717,7 @@ class Interp:
         ns = self._nums_strict(a)
         if ns[1] == 0:
             raise CompError("modulo by zero")
-        return round(math.fmod(ns[0], ns[1]), 2)
+        return round(ns[0] % ns[1], 2)
 
     def _nums_strict(self, a):
         out = []
@@ -741,6 +765,142 @@ class Interp:
             self._count_value(n, q, a)
         return self.neutral()
 
+    # ------------------------------------------------------------------ variables and aggregates (C03)
+    @staticmethod
+    def _name(q, default):
+        for x in q:
+            if x not in KNOWN_QUALS:
+                return x
+        return default
+
+    def _gate_onmatch(self, q):
+        return "onmatch" not in q or self.rest_matches(self.cur_comp)
+
+    def _argname(self, x):
+        if x[0] == "h":
+            return str(x[1])
+        if x[0] == "v":
+            return x[1]
+        if x[0] == "f":
+            return x[1]
+        raise Unmodelled(x)
+
+    def _tracked(self, x, what):
+        v = self.value(x)
+        if v is None or (isinstance(v, str) and v.strip() == ""):
+            raise Unspecified(f"{what} of an absent/empty value")
+        return v
+
+    def _bump(self, name, key, by=1):
+        if self.frozen:
+            return
+        d = self.vars.get(name)
+        if not isinstance(d, dict):
+            d = {}
+            self.vars[name] = d
+        d[key] = d.get(key, 0) + by
+
+    # docs/functions/tally.md
+    def m_tally(self, n, q, a):
+        if not self._gate_onmatch(q):
+            return self.neutral()
+        base = self._name(q, "tally")
+        vals = [str(self._tracked(x, "tally")) for x in a]
+        for x, v in zip(a, vals):
+            self._bump(f"{base}_{self._argname(x)}", v)
+        if len(a) > 1:
+            self._bump(base, "|".join(vals))
+        return True
+
+    # docs/functions/sum.md
+    def m_sum(self, n, q, a):
+        if not self._gate_onmatch(q):
+            return self.neutral()
+        name = self._name(q, "sum")
+        v = self._tracked(a[0], "sum")
+        x = float(to_num(v))
+        if not self.frozen:
+            self.vars[name] = (self.vars.get(name) or 0) + x
+        return self.neutral()
+
+    # docs/functions/subtotal.md
+    def m_subtotal(self, n, q, a):
+        if not self._gate_onmatch(q):
+            return self.neutral()
+        name = self._name(q, "subtotal")
+        cat = str(self._tracked(a[0], "subtotal"))
+        x = float(to_num(self._tracked(a[1], "subtotal")))
+        self._bump(name, cat, x)
+        return self.neutral()
+
+    # docs/functions/counter.md
+    def m_counter(self, n, q, a):
+        name = self._name(q, None)
+        if name is None:
+            raise Unmodelled("unnamed counter")
+        by = 1
+        if a:
+            by = int(to_num(self.value(a[0])))
+        if not self.frozen:
+            self.vars[name] = (self.vars.get(name) or 0) + by
+        return self.neutral()
+
+    # docs/functions/first.md: "Matches the first time a value is seen. A variable tracks the first line numbers for each value."
+    def m_first(self, n, q, a):
+        if not self._gate_onmatch(q):
+            return self.neutral()
+        name = self._name(q, "first")
+        key = "".join(str(self._tracked(x, "first")) for x in a).strip()
+        d = self.vars.get(name)
+        if isinstance(d, dict) and key in d:
+            return False
+        if not self.frozen:
+            if not isinstance(d, dict):
+                d = {}
+                self.vars[name] = d
+            d[key] = self.i
+        return True
+
+    # docs/functions/count.md: count(value) "stores the value-integer pairs in a variable under a key identifying the count function"
+    def _count_value(self, n, q, a):
+        name = self._name(q, None)
+        if name is None:
+            raise Unmodelled("unnamed count(value)")
+        x = a[0]
+        if x[0] in ("==",) or (x[0] == "f" and hasattr(self, "m_" + x[1]) and not hasattr(self, "v_" + x[1])):
+            key = bool(self.match(x))
+            matched = key
+        else:
+            key = self._tracked(x, "count")
+            matched = True
+        if "onmatch" in q and not matched:
+            d = self.vars.get(name) or {}
+            return d.get(key, 0)
+        self._bump(name, key)
+        return self.vars[name][key] if not self.frozen else 0
+
+    # docs/functions/pop.md
+    def v_pop(self, n, q, a):
+        name = self.value(a[0])
+        st = self.vars.get(name)
+        if not st:
+            return None
+        v = st[-1]
+        if not self.frozen:
+            self.vars[name] = st[:-1]
+        return v
+
+    def v_peek(self, n, q, a):
+        name = self.value(a[0])
+        i = int(to_num(self.value(a[1])))
+        st = self.vars.get(name) or []
+        return st[i] if 0 <= i < len(st) else None
+
+    def v_peek_size(self, n, q, a):
+        return len(self.vars.get(self.value(a[0])) or [])
+
+    v_size = v_peek_size
+
     # validity
     def m_fail(self, n, q, a):
         self.valid = False
@@ -762,12 +922,21 @@ class Interp:
         for x in a:
             v = self.value(x)
             if is_none(v):
-                v = 0
+                raise Unspecified("arithmetic on an absent/empty value")
             out.append(float(to_num(v)))
         return out
 
     def v_add(self, n, q, a):
-        return float(sum(self._nums(a)))
+        # docs/functions/sum.md presents '@notsum = add(@notsum, #0)' as equivalent to sum(#0): an unset operand counts as 0
+        tot = 0.0
+        for x in a:
+            v = self.value(x)
+            if v is None:
+                continue
+            if is_none(v):
+                raise Unspecified("add() of an empty cell")
+            tot += float(to_num(v))
+        return tot
 
     def v_subtract(self, n, q, a):
         ns = self._nums(a)
